@@ -33,10 +33,17 @@ structure Cfg where
   /-- does the surplus-idle test count idle connections (repaired) or all connections (1.0.7)? -/
   countIdleOnly : Bool
 
+/-- why the pass hands a connection to `_close_connections` (ghost information) -/
+inductive Reason
+  | expired
+  | surplus (idleNow : Nat)   -- idle while "too many": `idleNow` = number of idle connections then
+  | room                      -- evicted at the connection limit to make room for a new connection
+  deriving DecidableEq, Repr
+
 structure State where
   conns : List Conn
   reqs : List Req
-  closing : List Conn        -- connections handed to `_close_connections` by this pass
+  closing : List (Conn × Reason)   -- connections handed to `_close_connections` by this pass
   nextId : Nat
   deriving Repr
 
@@ -49,13 +56,13 @@ def surplusCount (cfg : Cfg) (cur : List Conn) : Nat :=
   if cfg.countIdleOnly then (cur.filter (·.idle)).length else cur.length
 
 /-- first loop: `for connection in list(self._connections)` -/
-def cleanup (cfg : Cfg) : List Conn → List Conn → List Conn → List Conn × List Conn
+def cleanup (cfg : Cfg) : List Conn → List Conn → List (Conn × Reason) → List Conn × List (Conn × Reason)
   | [], cur, closing => (cur, closing)
   | c :: rest, cur, closing =>
     if c.closed then cleanup cfg rest (cur.erase c) closing
-    else if c.expired then cleanup cfg rest (cur.erase c) (closing ++ [c])
+    else if c.expired then cleanup cfg rest (cur.erase c) (closing ++ [(c, .expired)])
     else if c.idle && surplusCount cfg cur > cfg.maxKeepalive then
-      cleanup cfg rest (cur.erase c) (closing ++ [c])
+      cleanup cfg rest (cur.erase c) (closing ++ [(c, .surplus (cur.filter (·.idle)).length)])
     else cleanup cfg rest cur closing
 
 /-- one iteration of the second loop, for a queued request -/
@@ -71,7 +78,7 @@ def assignOne (cfg : Cfg) (s : State) (r : Req) : State × Req :=
     else match idles with
       | i :: _ =>
         let n := fresh cfg s.nextId r.origin
-        ({ s with conns := (s.conns.erase i) ++ [n], closing := s.closing ++ [i],
+        ({ s with conns := (s.conns.erase i) ++ [n], closing := s.closing ++ [(i, .room)],
                   nextId := s.nextId + 1 }, { r with conn := some n.id })
       | [] => (s, r)
 
@@ -104,13 +111,13 @@ inductive D2
   | noneAvail (idle : Option Conn)   -- none available; the first idle connection seen, if any
   deriving Repr
 
-def cleanupAdv : List Conn → List D1 → List Conn → List Conn → List Conn × List Conn
+def cleanupAdv : List Conn → List D1 → List Conn → List (Conn × Reason) → List Conn × List (Conn × Reason)
   | [], _, cur, closing => (cur, closing)
   | _ :: _, [], cur, closing => (cur, closing)
   | c :: rest, d :: ds, cur, closing =>
     match d with
     | .drop => cleanupAdv rest ds (cur.erase c) closing
-    | .close => cleanupAdv rest ds (cur.erase c) (closing ++ [c])
+    | .close => cleanupAdv rest ds (cur.erase c) (closing ++ [(c, .expired)])
     | .keep => cleanupAdv rest ds cur closing
 
 /-- the pool's own bookkeeping (`len(self._connections) < max`, list removal, append) is not
@@ -124,7 +131,7 @@ def assignOneAdv (cfg : Cfg) (s : State) (origin : Nat) : D2 → State
       | some i =>
         if i ∈ s.conns then
           { s with conns := (s.conns.erase i) ++ [fresh cfg s.nextId origin],
-                   closing := s.closing ++ [i], nextId := s.nextId + 1 }
+                   closing := s.closing ++ [(i, .room)], nextId := s.nextId + 1 }
         else s
       | none => s
 
